@@ -1,0 +1,17 @@
+// Copyright (c) 2026, Daniel Martí <mvdan@mvdan.cc>
+// See LICENSE for licensing information
+
+//go:build verif
+
+package interp
+
+// VerifYield, when set by a test built with the "verif" tag, is called at the
+// points where the interpreter starts or finishes a goroutine, or hands shell
+// state over to one. It lets such a test perturb the goroutine schedule.
+var VerifYield func(point string)
+
+func verifYield(point string) {
+	if VerifYield != nil {
+		VerifYield(point)
+	}
+}
